@@ -756,7 +756,7 @@ fn run<W: WX>(ctx: &mut Ctx, prop: &str, widths: &[usize], depth: u32) {
         if w > W::BITS {
             continue;
         }
-        if !ctx.common_case(|| format!("BitFieldVec<{}>::<seed construction> width={w}", W::NAME)) {
+        if !ctx.common_case(|| format!("BitFieldVec<{}>::<seed-construction> width={w}", W::NAME)) {
             ctx.cap("seed construction crashed for a (word, width) pair");
             continue;
         }
